@@ -39,7 +39,10 @@ def one(name):
     confirmed = bool(m) and m.group(1) == "0" and m.group(2) != "0" and m.group(3) == "0"
     r = subprocess.run([RUN, name, prop], capture_output=True, text=True).stdout
     rc = re.search(r"SEEDRUN \S+ \S+ exit=(\d+)", r)
-    log = open(f"/verif/.work/seedrun-{name}-{prop}.log").read()
+    try:
+        log = open(f"/verif/.work/seedrun-{name}-{prop}.log").read()
+    except FileNotFoundError:
+        log = ""  # the patch did not apply to the scratch copy
     sigs = sorted(set(re.findall(r'signature="([^"]*)"', log)))[:6]
     notes = open(os.path.join(d, "notes.md")).read() if os.path.exists(os.path.join(d, "notes.md")) else ""
     meta = {
